@@ -162,7 +162,7 @@ fn pick_policy(r: &mut Rng, nthreads: usize, kind: RunKind, allow_intra: bool) -
     }
     // with block-level ticks a call has ~50x more decision points: scale the per-tick switch probability
     let bb = bb_guards() > 0;
-    let scale = if bb { 1.0 / 40.0 } else { 1.0 };
+    let scale = if bb { 1.0 / 120.0 } else { 1.0 };
     if k < 6 {
         Policy::Serial
     } else if k < 16 {
